@@ -210,6 +210,8 @@ def _n4_n5_n6(ctx, R):
             n4 += 1
         if sets:
             ref = sets.get("update", set())
+            if "update" in sets and not ref:
+                raise AnalysisError("%s.update compares its key with no literal this rule can read: which keys the policy handles is computed, not written" % cls.name)
             for m, s in sets.items():
                 if s == ref and s:
                     R.ok("N4", "%s.%s handles %s" % (cls.name, m, sorted(s)), cls.methods[m].loc())
@@ -501,7 +503,7 @@ def _n7(ctx, R):
                 R.bad("N7", "%s|%s.%s foreign" % (f.key, pc, a), f.loc(), "%s reads %s under isinstance(%s)" % (f.qualname, a, pc))
     # apply_namespace must also (re)fill the new index from each relation
     ap = nm.methods.get("apply_namespace")
-    filled = {norm(c.args[0]).split(".")[-1] for c in walk_local(ap.node)
+    filled = {norm(c.args[0]).split(".")[-1] for g in _with_private_helpers(P, ap) for c in walk_local(g.node)
               if isinstance(c, ast.Call) and norm(c.func) == "self._update_new_namespace" and c.args}
     for pc, rels in SCHEMA.items():
         for a, _ in rels:
@@ -539,6 +541,17 @@ def _n7(ctx, R):
                 if ev.kind == "write" and (ev.cls, ev.field) in named and ev.op == "set" and f.name != "__init__":
                     n += 1
                     c = classify_set(f.node, ev)
+                    if c == "assign":
+                        # the value may be prepared by a private helper (`self._ports = _reordered(self._ports, value, …)`): read it in place
+                        from ..inline import inlined_view
+                        from ..effects import FuncEvents
+                        fv = inlined_view(ctx.P, f)
+                        if fv is not f:
+                            same = [e for es in FuncEvents(ctx.P, fv, M).by_node.values() for e in es
+                                    if e.kind == "write" and (e.cls, e.field) == (ev.cls, ev.field) and e.op == "set"]
+                            kinds = {classify_set(fv.node, e) for e in same}
+                            if same and len(kinds) == 1:
+                                c = kinds.pop()
                     if c in ("filter", "permute", "reset"):
                         R.ok("N7b", "%s: %s (%s of existing members)" % (f.qualname, short(ev.stmt, 40), c), f.loc(ev.stmt))
                     else:
